@@ -601,6 +601,12 @@ func genAll(out *Output, rng *Rng, nRegs int) {
 			o, nilRes = observeRS(func() *zlint.ResultSet { return zlint.LintOcspResponseEx(decoyOCSP(target, int(target.Unix()&3)), reg.Registry()) })
 		}
 		_ = nilRes
+		// direct (model-independent): whatever a certificate lint does - in its constructor, its configuration hook,
+		// its applicability test or its body - no panic reaches the caller of certificate linting
+		if kind == "cert" && strings.Contains(o.Panic, "exploded") { // a panic raised by a lint (scripted message), not the nil result of a contract-breaking mock
+			out.Violate("C01|panic-reaches-caller:certificate", "LintCertificateEx let a panic reach the caller: "+o.Panic,
+				map[string]interface{}{"kind": kind, "scripts": scripts, "config": cfgText}, "a result set with a fatal result for the panicking lint", o.Panic)
+		}
 		items := make([]string, len(scripts))
 		for j, s := range scripts {
 			items[j] = s.Coq()
